@@ -479,7 +479,7 @@ class C33(Spec):
         self.aux = {}
 
     def gen(self, tier, rng):
-        n = 400 if tier == 'quick' else 6000
+        n = 400 if tier == 'quick' else 4000
         return [gen_case(rng) for _ in range(n)]
 
     def search_gen(self, tier, rng):
